@@ -1,5 +1,48 @@
-(* C11 - statements only. (grows) *)
-From Sbdf Require Import Base BaseFacts.
-Theorem C11_names_compare_as_c_strings : forall s, cstr (cstr s) = cstr s.
-Proof. exact cstr_idem. Qed.
-Print Assumptions C11_names_compare_as_c_strings.
+(* C11 — column and table slices keep their structural invariants.  Statements only; proofs in
+   CsFacts.v and SliceFacts.v.  The payload type V of a caller-built slice is the identity of a
+   value array (a handle): "the very same array" is equality of payloads. *)
+From Sbdf Require Import Slice CsFacts SliceFacts MdFacts.
+
+(* an addition is accepted exactly when the row counts agree and the name is new *)
+Theorem C11_add : forall V (rows : V -> Z) (c : cs V) name v,
+  (rows (csvals c) = rows v -> cs_find name c = None ->
+     cs_add_property rows c name v = Ok {| csvals := csvals c; csprops := csprops c ++ [(cstr name, v)]; csowned := csowned c |}) /\
+  (rows (csvals c) <> rows v -> cs_add_property rows c name v = Err SBDF_ERROR_ROW_COUNT_MISMATCH) /\
+  (rows (csvals c) = rows v -> cs_find name c <> None -> cs_add_property rows c name v = Err SBDF_ERROR_PROPERTY_ALREADY_EXISTS).
+Proof. intros V. exact cs_add_spec. Qed.
+Print Assumptions C11_add.
+
+(* names stay unique, every property has the row count of the values, order is insertion order *)
+Theorem C11_invariant : forall V (rows : V -> Z) (c c' : cs V) name v, cs_inv rows c -> cs_add_property rows c name v = Ok c' ->
+  cs_inv rows c' /\ csvals c' = csvals c /\ csprops c' = csprops c ++ [(cstr name, v)].
+Proof. intros V. exact cs_add_preserves_inv. Qed.
+Print Assumptions C11_invariant.
+
+(* accepted properties are retrievable by name as the very same array; earlier ones are unaffected *)
+Theorem C11_get : forall V (rows : V -> Z) (c c' : cs V) name v, cs_add_property rows c name v = Ok c' ->
+  cs_get_property c' name = Ok v /\
+  (forall other, name_eqb other name = false -> cs_get_property c' other = cs_get_property c other).
+Proof. intros V rows c c' name v H. split; [eapply cs_get_after_add; eassumption|intros; eapply cs_get_other_after_add; eassumption]. Qed.
+Print Assumptions C11_get.
+
+Theorem C11_get_absent : forall V (c : cs V) name, cs_find name c = None -> cs_get_property c name = Err SBDF_ERROR_PROPERTY_NOT_FOUND.
+Proof. intros V. exact cs_get_absent. Qed.
+Print Assumptions C11_get_absent.
+
+(* a table slice lists exactly the column slices added to it, in order *)
+Theorem C11_table_slice_lists_columns : forall C (cols : list C),
+  tscols (fold_left (fun t c => ts_add c t) cols ts_create) = map Some cols.
+Proof. intros C. exact ts_add_lists_columns. Qed.
+Print Assumptions C11_table_slice_lists_columns.
+
+(* a slice obtained from a stream — any stream, any subset — has exactly as many columns as the
+   metadata it was read against; a well-formed slice of another width is refused *)
+Theorem C11_read_column_count : forall swp cap ncols subset s t s',
+  ts_read swp cap ncols subset s = Ok (t, s') -> zlen (tscols t) = ncols /\ tsowned t = true.
+Proof. exact ts_read_column_count. Qed.
+Print Assumptions C11_read_column_count.
+
+Theorem C11_read_count_mismatch : forall swp cols ncols subset tail, wf_ts cols -> ncols <> zlen cols ->
+  ts_read swp None ncols subset (enc_ts swp cols ++ tail) = Err SBDF_ERROR_COLUMN_COUNT_MISMATCH.
+Proof. exact ts_read_count_mismatch. Qed.
+Print Assumptions C11_read_count_mismatch.
